@@ -61,6 +61,20 @@ M = [
  ("M056", ["C03"], TK + "transceiver.py", "\t\t\t\t\temit.append(msg)\n", "\t\t\t\t\temit.append(msg)\n\t\t\t\t\tif len(self._tx_queue) > 2:\n\t\t\t\t\t\twait.append(msg)\n", "burst kept after emission when three are queued (late duplicate / stale report)"),
  ("M057", ["C03"], TK + "transceiver.py", "\tdef tx_queue_clear(self):\n\t\twith self._tx_queue_lock:\n\t\t\tself._tx_queue.clear()", "\tdef tx_queue_clear(self):\n\t\twith self._tx_queue_lock:\n\t\t\tself._tx_queue = self._tx_queue[:0] if len(self._tx_queue) != 1 else self._tx_queue", "POWEROFF keeps a single queued burst"),
  ("M058", ["C03"], TK + "transceiver.py", "\t\t# Enqueue the message, it will be sent later\n\t\tself.tx_queue_append(msg)", "\t\t# Enqueue the message, it will be sent later\n\t\tq = self._tx_queue\n\t\tq.append(msg)", "arrival appends to a stale reference of the queue list, bypassing the lock"),
+ ("M060", ["C05"], TK + "ctrl_if_trx.py", "\t\t\tif self.trx.running:\n\t\t\t\tlog.error(\"(%s) Transceiver already started\"", "\t\t\tif False:\n\t\t\t\tlog.error(\"(%s) Transceiver already started\"", "POWERON accepted while running"),
+ ("M061", ["C05"], TK + "data_if.py", "for ver in Msg.KNOWN_VERSIONS[::-1]:", "for ver in Msg.KNOWN_VERSIONS:", "SETFORMAT suggests the lowest instead of the highest supported version"),
+ ("M062", ["C05"], TK + "ctrl_if_trx.py", "if ver_req < 0 or ver_req > Msg.CHDR_VERSION_MAX:", "if ver_req < 0 or ver_req >= Msg.CHDR_VERSION_MAX:", "SETFORMAT 15 answered -1"),
+ ("M063", ["C05"], TK + "ctrl_if.py", "\t\tself.sendto(response, remote)", "\t\tself.send(response)", "reply sent to the configured peer instead of the sender"),
+ ("M064", ["C05"], TK + "ctrl_if.py", "response = \"RSP \" + \" \".join(request) + \"\\0\"", "response = \"RSP \" + \" \".join(request)", "reply without the terminating NUL"),
+ ("M065", ["C05", "C10"], TK + "fake_trx.py", "\t\t\tself.toa256_base += int(request[1])", "\t\t\tself.toa256_base = int(request[1])", "relative FAKE_TOA form treated as absolute"),
+ ("M066", ["C05"], TK + "fake_trx.py", "\t\t\tif int(request[2]) < 0:\n\t\t\t\tself.fake_rssi_enabled = False\n\t\t\t\treturn 0\n", "", "negative FAKE_RSSI threshold no longer disables the simulation"),
+ ("M067", ["C05", "C18"], TK + "ctrl_if_trx.py", "self.trx.rf_muted = int(request[1]) > 0", "self.trx.rf_muted = int(request[1]) > 1", "RFMUTE 1 does not mute"),
+ ("M068", ["C05"], TK + "ctrl_if_trx.py", "return (0, [str(self.trx.tx_power_base)])", "return (0, [str(self.trx.tx_power)])", "NOMTXPOWER reports power minus attenuation"),
+ ("M069", ["C05"], TK + "fake_pm.py", "\t\t\tif not trx.running:\n\t\t\t\tcontinue\n", "", "MEASURE sees powered-off transceivers"),
+ ("M06A", ["C05"], TK + "ctrl_if.py", "self.sock.recvfrom(1024)", "self.sock.recvfrom(128)", "original 128-octet TRXC receive buffer"),
+ ("M06B", ["C05", "C10"], TK + "fake_trx.py", "msg.toa256 -= src_trx.ta * 256", "msg.toa256 += src_trx.ta * 256", "timing advance applied with the wrong sign"),
+ ("M06C", ["C05", "C10"], TK + "ctrl_if_trx.py", "self.trx.tx_att_base = att_req", "self.trx.tx_att_base = 0", "SETPOWER ignored"),
+ ("M06D", ["C05"], TK + "ctrl_if_trx.py", "\t\t\tif not self.trx.ready:\n\t\t\t\tlog.error(\"(%s) Transceiver is not ready\"", "\t\t\tif self.trx._rx_freq is None and self.trx.fh is None:\n\t\t\t\tlog.error(\"(%s) Transceiver is not ready\"", "POWERON accepted with only RXTUNE done"),
 ]
 
 
